@@ -345,7 +345,7 @@ def r9_digit_fast_path(ctx):
             want = [sym.canon(sym.parse_expr(f"np.any({first} == {c!r})")), sym.canon(sym.parse_expr(f"np.any({c!r} == {first})"))]
             ok = any((not v) and any(w == k or f"({w})" == k for w in want) for k, v in facts)
             ctx.ob(g.where, f"the digit fast path (no sign masks) is taken only where no field starts with {c!r}: every sign str_to_int recognises sends the column "
-                   "down the ragged path with its masks", ok, f"guards: {sorted(k for k, v in facts if not v)}", key=f"C18-R9|fast-path-excludes|{c}")
+                   "down the ragged path with its masks", ok, f"guards: {sorted(k for k, v in facts if not v)}", key=f"C18-R9|fast-path-excludes|{c}", definite=True)
 
 
 def _optional_int_formatter(ctx):
